@@ -1,4 +1,5 @@
 import I2N.Lemmas.PolicyFrame
+import I2N.Lemmas.PolicyGenPush
 /-!
 # C12 — State operations follow the documented policy table and a store model
 
@@ -359,5 +360,80 @@ theorem push_touches_readonly :
     (runOp B0 .set p s0).2.store = s0.store ∧
     "s" ∈ ((runOp B0 .push p s0).2.store.obj (kImg "image1")).names := by
   decide +kernel
+
+/-! ## 6. translator tie: the model IS the current source of `states/setup.py`
+
+`I2N.Extracted.GenPolicy` is regenerated on every run by `harness/pygen_pxpolicy.py` (front end) + `harness/pygen.py`
+(Python AST -> Lean `do` block, fails closed) from the CURRENT text of `check_states`, `get_states`, `set_states`,
+`unset_states`, `push_states`: ONE ITERATION of their loop over `_parametric_object_iteration(run_params)`, statement by
+statement — the two `continue` guards, the "no state asked for" test, the default mode written back, the nested
+`_state_check_chain` call, the three look-ups in source order, the two mode letters, the whole `if/elif` chain, the
+ROOTS test, the `SourcedStateBackend` special case, the backend calls — in the monad `I2N.PolicyM.M` (a statement
+sequence that may raise and keeps the state it reached: `state_params`, `root_params`, store and ordered log of backend
+calls).  The theorems say that this equals the hand model's function for ALL dictionaries, stores, backends: same result
+or error AND same store AND same ordered backend calls (`outOf` only forgets the two dictionaries, which are local to
+the iteration).  An edit of the Python changes the generated Lean and these theorems stop compiling. -/
+
+section Regenerated
+open I2N.PolicyM I2N.Extracted.GenPolicy
+
+/-- what the hand model assumes about the state key of get/set/unset (and push): rewriting the parameters for the nested
+call does not change it.  The code re-reads `state_params["get_state"]` AFTER `_state_check_chain` wrote every component
+`type = name` of the object into the same dictionary; the hand model keeps the value it read before.  The two differ only
+when a component of `states_chain` is itself called `get_state` / `set_state` / `unset_state` (`noClash_of_types`). -/
+def NoClash (d : Do) (sp : Params) : Prop := (doParams d sp).getD d.stateKey "" = sp.getD d.stateKey ""
+
+instance (d : Do) (sp : Params) : Decidable (NoClash d sp) := by unfold NoClash; infer_instance
+
+/-- a sufficient condition on the parameters alone: no component of the object's type is named like the state key -/
+theorem noClash_of_types (d : Do) (sp : Params) (h : d.stateKey ∉ splitSlash (typeOf sp)) : NoClash d sp :=
+  I2N.PolicyGen.doParams_stateKey d sp h
+
+/-- **one iteration of `get_states` is `doOne .get`** (guards, default `get_mode`, nested check, look-ups, the chain
+`.a .i . a. r. i. .`, `get_root` / `get`), for all dictionaries, stores and backends.  Hypothesis `NoClash`: see there
+(it excludes object types one of whose components is literally called `get_state`). -/
+theorem getOne_matches_source (B : Backends) (sp rp : Params) (st : St) (h : NoClash .get sp) :
+    outOf ((genGetOne B).run ⟨sp, rp, st⟩) = doOne B .get sp st :=
+  I2N.PolicyGen.getOne_eq B sp rp st h
+
+/-- **one iteration of `set_states` is `doOne .set`** (chain `a. r. f. . .a .f .`, the `unset_state` key written before
+the overwrite, the `SourcedStateBackend` special case, the root prerequisite of a forced set, `set_root` / `set`). -/
+theorem setOne_matches_source (B : Backends) (sp rp : Params) (st : St) (h : NoClash .set sp) :
+    outOf ((genSetOne B).run ⟨sp, rp, st⟩) = doOne B .set sp st :=
+  I2N.PolicyGen.setOne_eq B sp rp st h
+
+/-- **one iteration of `unset_states` is `doOne .unset`** (chain `.a .i . r. f. .`, `unset_root` / `unset`). -/
+theorem unsetOne_matches_source (B : Backends) (sp rp : Params) (st : St) (h : NoClash .unset sp) :
+    outOf ((genUnsetOne B).run ⟨sp, rp, st⟩) = doOne B .unset sp st :=
+  I2N.PolicyGen.unsetOne_eq B sp rp st h
+
+/-- **one iteration of `check_states` is `checkOne`** — no hypotheses: the guards, the defaults `check_opts` /
+`check_mode=rf` written back, the look-ups, the root prerequisite letter by letter (forced creation with
+`pool_scope=own`, `return False`, invalid policy, forced re-creation through `vm.destroy` or `unset_root`, `get_root`),
+the ROOTS test and the `show` look-up; `true` = go on with the next object. -/
+theorem checkOne_matches_source (B : Backends) (sp rp : Params) (st : St) :
+    outOf ((genCheckOne B).run ⟨sp, rp, st⟩) = checkOne B sp st :=
+  I2N.PolicyGen.checkOne_eq B sp rp st
+
+/-- **one iteration of `push_states` is `pushOne`**: the ROOTS guard, the restriction to the object, the keys
+`set_state` / `set_mode` (default `af`) written before `set_states` is called.  Hypothesis: the restriction does not
+overwrite `push_state` (the code re-reads it afterwards, the hand model does not). -/
+theorem pushOne_matches_source (B : Backends) (sp rp : Params) (st : St)
+    (h : (restrict sp).getD "push_state" "" = sp.getD "push_state" "") :
+    outOf ((genPushOne B).run ⟨sp, rp, st⟩) = pushOne B sp st :=
+  I2N.PolicyGen.pushOne_eq B sp rp st h
+
+/-- NV: the image of the standard example satisfies `NoClash` (decided on the concrete dictionary), and the generated
+iteration computes on it: `get_mode=ra`, empty store, default `check_mode`: abort after the root was created. -/
+def spImg : Params :=
+  [("nets", "net1"), ("vms", "vm1"), ("images", "image1"), ("states", "mem"), ("get_state", "launch"),
+   ("get_mode", "ra"), ("push_state", "launch"), ("object_name", "net1/vm1/image1"), ("object_type", "nets/vms/images"),
+   ("states_chain", "nets vms images")]
+example : NoClash .get spImg ∧ NoClash .set spImg ∧ NoClash .unset spImg := by decide +kernel
+example : (restrict spImg).getD "push_state" "" = spImg.getD "push_state" "" := by decide +kernel
+example : errOf ((genGetOne B0).run ⟨spImg, [], {}⟩).1 = some .abort ∧
+    ((genGetOne B0).run ⟨spImg, [], {}⟩).2.st.calls.map (·.kind) = [.checkRoot, .setRoot, .show] := by decide +kernel
+
+end Regenerated
 
 end I2N.Props.C12
